@@ -71,6 +71,12 @@ CORPUS = {
 # small helpers
 
 def _seed(rng):
+    # falsy / boundary seeds are seeds too: `seed=0` must be as reproducible as any other
+    x = rng.random()
+    if x < 0.15:
+        return 0
+    if x < 0.2:
+        return rng.choice([1, 2 ** 31 - 1])
     return rng.randint(0, 2 ** 31 - 1)
 
 
